@@ -193,6 +193,14 @@ class World:
         from pynenc.exceptions import RetryError
         if ev == "enter":
             self.hooks["bodies"] += 1
+            # the body only ever executes for an invocation that is RUNNING (a worker that failed the run-time check gave it back and must skip it)
+            try:
+                own = self.status(inv)
+            except Exception:
+                own = "?"
+            if own != "RUNNING":
+                self.V.append({"sig": f"body-executing-while-status:{own}", "what": f"the body of invocation {str(inv)[:8]} started while its status is {own} (path {self.inv_path.get(inv)})",
+                               "witness": {"backend": self.backend, "mode": self.mode, "reroute": self.reroute}})
             self.snapshot_check("body-enter")
             if self.sc is not None:
                 self.sc.yield_point("probe:body-enter")
